@@ -3,7 +3,7 @@ import json, os
 import vlib
 
 PROP = "C02"
-CFG = ('SPECIFICATION Spec\nCONSTANTS Names = {"g", "f", "l", "h", "x", "i", "a", "b", "t", "t0"}\n MaxDepth = 20\n'
+CFG = ('SPECIFICATION Spec\nCONSTANTS Names = {"g", "f", "l", "h", "x", "i", "a", "b", "t", "t0", "p", "q"}\n MaxDepth = 20\n'
        "INVARIANT LetAbstractionLaw\nINVARIANT TwiceLaw\nINVARIANT NoEffectLaw\nINVARIANT Emit\nCHECK_DEADLOCK FALSE\n")
 
 
